@@ -202,6 +202,7 @@ func (rn *runner) runOnce(runIdx int, p profile, nW, nR, batches, scans int) {
 	var writesDone int32
 	var readsOverlapFlush int64
 	var flushGen, replaceGen int64
+	var maintBusy, finalScan, finalDone int32
 	// writers
 	for w := 0; w < nW; w++ {
 		wg.Add(1)
@@ -288,8 +289,25 @@ func (rn *runner) runOnce(runIdx int, p profile, nW, nR, batches, scans int) {
 			defer wg.Done()
 			rr := rand.New(rand.NewPCG(c.Seed, uint64(runIdx*100+50+rd)))
 			client := 100 + rd
-			for q := 0; q < scans && atomic.LoadInt32(&stop) == 0; q++ {
+			myFinal := 0 // writers scanned in the quiescent pass (see finalScan)
+			for q := 0; (q < scans || myFinal <= nW) && atomic.LoadInt32(&stop) == 0; q++ {
+				if q >= scans && atomic.LoadInt32(&finalScan) == 0 {
+					time.Sleep(20 * time.Millisecond) // out of seeded scans: wait for the quiescent pass
+					continue
+				}
 				w := rr.IntN(nW)
+				if atomic.LoadInt32(&finalScan) == 1 && myFinal <= nW {
+					// quiescent pass: writers and maintenance are done, the server is still up -
+					// every reader scans every writer's series once more (judged like any read: it
+					// must return the last acknowledged value of every key)
+					if myFinal == nW {
+						atomic.AddInt32(&finalDone, 1)
+						myFinal++
+					} else {
+						w = myFinal
+						myFinal++
+					}
+				}
 				desc := rr.IntN(3) == 0
 				stmt := fmt.Sprintf("SELECT fi, fs FROM m WHERE w = '%d' GROUP BY *", w)
 				if desc {
@@ -386,8 +404,8 @@ func (rn *runner) runOnce(runIdx int, p profile, nW, nR, batches, scans int) {
 				continue
 			}
 			x := fr.IntN(10)
-			if n%3 == 2 {
-				x = 6 // every third action: merge with concurrent full compactions
+			if n%3 == 0 {
+				x = 6 // the first and every third action: a merge racing a flush or full compactions
 			}
 			switch {
 			case x < 6:
@@ -395,7 +413,60 @@ func (rn *runner) runOnce(runIdx int, p profile, nW, nR, batches, scans int) {
 				_ = s.Flush()
 				atomic.AddInt64(&flushGen, 1)
 				c.Count("forced-flushes", 1)
-			case x < 8 && n%3 == 2:
+			case x < 8 && n%3 == 0 && (runIdx+n/3)%2 == 0:
+				// a flush of late rows arriving exactly when an out-of-order merge has removed the
+				// last out-of-order file of the measurement and is about to drop the measurement's
+				// (then empty) out-of-order list: the merge is parked between the two steps
+				atomic.StoreInt32(&maintBusy, 1)
+				for k := 0; k < 2; k++ {
+					// the first flush may be the very first of the run (ordered files only); what the
+					// writers overwrite meanwhile becomes an out-of-order file with the second one
+					atomic.AddInt64(&flushGen, 1)
+					_ = s.Flush()
+					atomic.AddInt64(&flushGen, 1)
+					time.Sleep(120 * time.Millisecond)
+				}
+				atomic.AddInt64(&replaceGen, 1)
+				t0 := time.Now()
+				hold := "merge-unordered-removed=sleep(1500)"
+				if p.Points != "" {
+					hold = p.Points + ";" + hold
+				}
+				n0 := int64(0)
+				if st, err := s.State(db); err == nil {
+					n0 = st.Points["merge-unordered-removed"]
+				}
+				_ = s.Points(hold)
+				var mwg sync.WaitGroup
+				mwg.Add(1)
+				go func() { defer mwg.Done(); _ = s.Ctl("POST", "/verif/merge?full=1", "", nil) }() // all out-of-order files of a measurement
+				reached := false
+				var lastPts map[string]int64
+				for t := 0; t < 150 && !reached; t++ {
+					time.Sleep(20 * time.Millisecond)
+					if st, err := s.State(db); err == nil {
+						reached = st.Points["merge-unordered-removed"] > n0
+						lastPts = st.Points
+					}
+				}
+				atomic.AddInt64(&flushGen, 1)
+				_ = s.Flush() // the writers' late rows of the last moments: a new out-of-order file
+				atomic.AddInt64(&flushGen, 1)
+				mwg.Wait()
+				_ = s.Points(p.Points)
+				atomic.AddInt64(&replaceGen, 1)
+				time.Sleep(1600 * time.Millisecond) // the parked merge finishes its clean-up
+				atomic.StoreInt32(&maintBusy, 0)
+				if reached {
+					c.Count("flushes-landing-at-the-end-of-an-out-of-order-merge", 1)
+				} else {
+					c.Count("forced-merges(parked-end-not-reached)", 1)
+					if os.Getenv("C04_DEBUG") != "" {
+						st, err := s.State(db)
+						fmt.Printf("DEBUG merge end not reached: elapsed=%v n0=%d writesDone=%d err=%v points=%v last=%v\n", time.Since(t0), n0, atomic.LoadInt32(&writesDone), err, st.Points, lastPts)
+					}
+				}
+			case x < 8 && n%3 == 0:
 				// an out-of-order merge with two full compactions requested while it runs: the
 				// planner must leave the files the merge owns alone, both times
 				atomic.AddInt64(&flushGen, 1)
@@ -475,6 +546,20 @@ func (rn *runner) runOnce(runIdx int, p profile, nW, nR, batches, scans int) {
 			break
 		}
 		time.Sleep(100 * time.Millisecond)
+	}
+	if s.Alive() {
+		// quiescent pass before the close: wait for the maintenance action in flight, then let
+		// every reader scan everything once (bounded)
+		for t := 0; t < 200 && atomic.LoadInt32(&maintBusy) == 1; t++ {
+			time.Sleep(50 * time.Millisecond)
+		}
+		atomic.StoreInt32(&finalScan, 1)
+		for t := 0; t < 400 && atomic.LoadInt32(&finalDone) < int32(nR) && s.Alive(); t++ {
+			time.Sleep(50 * time.Millisecond)
+		}
+		if atomic.LoadInt32(&finalDone) >= int32(nR) {
+			c.Count("quiescent-read-passes-completed-before-the-close", 1)
+		}
 	}
 	crashed := ""
 	if !s.Alive() {
